@@ -988,7 +988,9 @@ ASSUMPTIONS = [
     "const_evaluate_operand(_attribute) (a constant operand yields its stored normalised integer), ConstantOp.from_int_and_width (bit pattern of the value), "
     "K(lhs, rhs) (denotes K's MLIR semantics) and rewriter.replace (C11); FoldConstsByReassociation, FoldConstConstOp, the cmpi-constant and float pattern "
     "plumbing are covered by the bounded stand-in only",
-    "index-typed constants: lemmas are stated at width 64",
+    "index-typed constants: lemmas are stated at width 64. IntegerAttr does not truncate index payloads (truncate_bits is ignored for index: xdsl keeps index "
+    "width-agnostic), so fold on index constants returns the mathematical result (2**62 * 8 : index folds to 2**65); it is congruent to the bit-exact result "
+    "modulo 2**W for every index width W, which is what the lemmas state - that a consumer reduces the payload to the target width is NOT checked",
 ]
 
 SPECS = make_specs(os.environ.get("VERIF_TIER", "quick"))
